@@ -313,31 +313,121 @@ func (f *ioFn) isAliasOf(e ast.Expr, what string) bool {
 	return defs == 1 && good == 1
 }
 
-// fillsByLoop: f fills its []byte parameter b from the stream with a loop
+// fillsByLoop: f fills its []byte parameter b from the stream with a loop in
+// one of three shapes
 //
-//	for n < len(b) { got, err := <stream>.Read(b[n:]); n += got; … }
+//	A  for n < len(b)   { got, err := S.Read(b[n:]);        n += got;       … }
+//	B  for m > 0        { got, err := S.Read(b[len(b)-m:]); m -= got;       … }   (m := len(b))
+//	C  for len(r) > 0   { got, err := S.Read(r);            r = r[got:];    … }   (r := b)
 //
-// whose only exits besides the condition are returns and breaks under
-// `n >= len(b)` / `n == len(b)`. unsure: a loop of that kind is there but has
-// another way out, or the read does not start where the last one ended.
+// whose only exits besides the condition are returns and breaks under the
+// "full" test of its shape (n >= len(b), m <= 0, len(r) == 0). unsure: a loop
+// of that kind is there but has another way out, the counter is written
+// elsewhere, or the read does not start where the last one ended.
 func (f *ioFn) fillsByLoop(stream, dst string) (ok, unsure bool) {
+	lenDst := "len(" + dst + ")"
 	ast.Inspect(f.fd.Body, func(nd ast.Node) bool {
 		loop, isFor := nd.(*ast.ForStmt)
 		if !isFor || loop.Cond == nil || ok {
 			return true
 		}
 		be, isB := ast.Unparen(loop.Cond).(*ast.BinaryExpr)
-		if !isB || be.Op != token.LSS || f.canon(be.Y) != "len("+dst+")" {
+		if !isB {
 			return true
 		}
-		nv, isId := ast.Unparen(be.X).(*ast.Ident)
-		if !isId {
+		// the loop variable and the shape
+		shape := ""
+		var nv *ast.Ident
+		switch {
+		case be.Op == token.LSS && f.canon(be.Y) == lenDst:
+			if id, isId := ast.Unparen(be.X).(*ast.Ident); isId {
+				shape, nv = "A", id
+			}
+		case be.Op == token.GTR && f.canon(be.Y) == "0":
+			if id, isId := ast.Unparen(be.X).(*ast.Ident); isId {
+				shape, nv = "B", id
+			} else if call, isC := ast.Unparen(be.X).(*ast.CallExpr); isC && len(call.Args) == 1 && f.canon(call.Fun) == "len" {
+				if id, isId := ast.Unparen(call.Args[0]).(*ast.Ident); isId && f.canon(id) != dst {
+					shape, nv = "C", id
+				}
+			}
+		}
+		if shape == "" {
 			return true
 		}
 		nobj := f.info.ObjectOf(nv)
 		isN := func(e ast.Expr) bool {
 			id, ok := ast.Unparen(e).(*ast.Ident)
 			return ok && f.info.ObjectOf(id) == nobj
+		}
+		// B and C start from the whole of b
+		if shape != "A" {
+			startOK := false
+			ast.Inspect(f.fd.Body, func(k ast.Node) bool {
+				if as, isAs := k.(*ast.AssignStmt); isAs && as.Pos() < loop.Pos() && len(as.Lhs) == len(as.Rhs) {
+					for i, l := range as.Lhs {
+						if isN(l) {
+							want := lenDst
+							if shape == "C" {
+								want = dst
+							}
+							startOK = f.canon(as.Rhs[i]) == want
+						}
+					}
+				}
+				return true
+			})
+			if !startOK {
+				return true
+			}
+		}
+		readArgOK := func(arg ast.Expr) bool {
+			arg = ast.Unparen(arg)
+			switch shape {
+			case "A":
+				se, isSl := arg.(*ast.SliceExpr)
+				return isSl && f.canon(se.X) == dst && se.Low != nil && isN(se.Low) && se.High == nil
+			case "B":
+				se, isSl := arg.(*ast.SliceExpr)
+				if !isSl || f.canon(se.X) != dst || se.Low == nil || se.High != nil {
+					return false
+				}
+				lo, isB := ast.Unparen(se.Low).(*ast.BinaryExpr)
+				return isB && lo.Op == token.SUB && f.canon(lo.X) == lenDst && isN(lo.Y)
+			case "C":
+				return isN(arg)
+			}
+			return false
+		}
+		isFull := func(cnd ast.Expr) bool {
+			c, isB := ast.Unparen(cnd).(*ast.BinaryExpr)
+			if !isB {
+				return false
+			}
+			switch shape {
+			case "A":
+				return (c.Op == token.GEQ || c.Op == token.EQL) && isN(c.X) && f.canon(c.Y) == lenDst
+			case "B":
+				return (c.Op == token.LEQ || c.Op == token.EQL) && isN(c.X) && f.canon(c.Y) == "0"
+			case "C":
+				if call, isC := ast.Unparen(c.X).(*ast.CallExpr); isC && len(call.Args) == 1 && f.canon(call.Fun) == "len" && isN(call.Args[0]) {
+					return (c.Op == token.LEQ || c.Op == token.EQL) && f.canon(c.Y) == "0"
+				}
+			}
+			return false
+		}
+		// a condition under which the loop is full: the full test itself or a
+		// disjunction containing it is not enough (err == nil || full does not
+		// imply full) — only the test alone, or a conjunction with it
+		var impliesFull func(cnd ast.Expr) bool
+		impliesFull = func(cnd ast.Expr) bool {
+			if isFull(cnd) {
+				return true
+			}
+			if c, isB := ast.Unparen(cnd).(*ast.BinaryExpr); isB && c.Op == token.LAND {
+				return impliesFull(c.X) || impliesFull(c.Y)
+			}
+			return false
 		}
 		var got types.Object
 		reads, adds, otherWrites := 0, 0, 0
@@ -348,8 +438,6 @@ func (f *ioFn) fillsByLoop(stream, dst string) (ok, unsure bool) {
 				switch x := k.(type) {
 				case *ast.FuncLit, *ast.ForStmt, *ast.RangeStmt, *ast.SwitchStmt, *ast.SelectStmt:
 					if k != n {
-						// a break in there leaves that statement, not this loop;
-						// what they contain is not understood either way
 						ast.Inspect(x, func(q ast.Node) bool {
 							if as, isAs := q.(*ast.AssignStmt); isAs {
 								for _, l := range as.Lhs {
@@ -363,14 +451,10 @@ func (f *ioFn) fillsByLoop(stream, dst string) (ok, unsure bool) {
 						return false
 					}
 				case *ast.IfStmt:
-					full := false
-					if c, isB := ast.Unparen(x.Cond).(*ast.BinaryExpr); isB && (c.Op == token.GEQ || c.Op == token.EQL) && isN(c.X) && f.canon(c.Y) == "len("+dst+")" {
-						full = true
-					}
 					if x.Init != nil {
 						walk(x.Init, underFull)
 					}
-					walk(x.Body, underFull || full)
+					walk(x.Body, underFull || impliesFull(x.Cond))
 					if x.Else != nil {
 						walk(x.Else, underFull)
 					}
@@ -383,7 +467,7 @@ func (f *ioFn) fillsByLoop(stream, dst string) (ok, unsure bool) {
 					if len(x.Rhs) == 1 && len(x.Lhs) == 2 {
 						if call, isC := ast.Unparen(x.Rhs[0]).(*ast.CallExpr); isC && len(call.Args) == 1 {
 							if sel, isSel := ast.Unparen(call.Fun).(*ast.SelectorExpr); isSel && sel.Sel.Name == "Read" && (f.canon(sel.X) == stream || f.isAliasOf(sel.X, stream)) {
-								if se, isSl := ast.Unparen(call.Args[0]).(*ast.SliceExpr); isSl && f.canon(se.X) == dst && se.Low != nil && isN(se.Low) && se.High == nil {
+								if readArgOK(call.Args[0]) {
 									if gid, isId := x.Lhs[0].(*ast.Ident); isId {
 										got = f.info.ObjectOf(gid)
 										reads++
@@ -395,8 +479,22 @@ func (f *ioFn) fillsByLoop(stream, dst string) (ok, unsure bool) {
 						}
 					}
 					if len(x.Lhs) == 1 && len(x.Rhs) == 1 && isN(x.Lhs[0]) {
-						rid, isId := ast.Unparen(x.Rhs[0]).(*ast.Ident)
-						if x.Tok == token.ADD_ASSIGN && isId && got != nil && f.info.ObjectOf(rid) == got {
+						isGot := func(e ast.Expr) bool {
+							rid, isId := ast.Unparen(e).(*ast.Ident)
+							return isId && got != nil && f.info.ObjectOf(rid) == got
+						}
+						okStep := false
+						switch shape {
+						case "A":
+							okStep = x.Tok == token.ADD_ASSIGN && isGot(x.Rhs[0])
+						case "B":
+							okStep = x.Tok == token.SUB_ASSIGN && isGot(x.Rhs[0])
+						case "C":
+							if se, isSl := ast.Unparen(x.Rhs[0]).(*ast.SliceExpr); isSl && x.Tok == token.ASSIGN && isN(se.X) && se.Low != nil && isGot(se.Low) && se.High == nil {
+								okStep = true
+							}
+						}
+						if okStep {
 							adds++
 						} else {
 							otherWrites++
@@ -1701,6 +1799,82 @@ func iohelpDrain(c *core.Ctx, p *load.Prog, rule string, latch bool) {
 	discards := false
 	storesErr := false
 	shortRegion := false
+	// helpers of the wrapper that store the error they are handed in .Err
+	// (er.keepFirstErr(err)): a call of one is a store into er.Err
+	latchHelpers := map[types.Object]bool{}
+	for fn, fd := range p.AllDecls() {
+		if p.Owner(fn) != p.Iohelp() || fd.Body == nil || fd.Recv == nil || len(fd.Recv.List) != 1 || len(fd.Recv.List[0].Names) != 1 {
+			continue
+		}
+		recv := fd.Recv.List[0].Names[0].Name
+		params := map[types.Object]bool{}
+		if fd.Type.Params != nil {
+			for _, fl := range fd.Type.Params.List {
+				for _, nm := range fl.Names {
+					if o := f.info.Defs[nm]; o != nil && isErrorType(o.Type()) {
+						params[o] = true
+					}
+				}
+			}
+		}
+		if len(params) == 0 || fd == f.fd {
+			continue
+		}
+		ast.Inspect(fd.Body, func(n ast.Node) bool {
+			if as, ok := n.(*ast.AssignStmt); ok && len(as.Lhs) == 1 && len(as.Rhs) == 1 && wire.Canon(as.Lhs[0]) == recv+".Err" {
+				if id, ok := ast.Unparen(as.Rhs[0]).(*ast.Ident); ok && params[f.info.ObjectOf(id)] {
+					latchHelpers[fn] = true
+				}
+			}
+			return true
+		})
+	}
+	isLatchCall := func(n ast.Node) (*ast.CallExpr, bool) {
+		call, ok := n.(*ast.CallExpr)
+		if !ok {
+			return nil, false
+		}
+		cal := load.Callee(f.info, call)
+		return call, cal != nil && latchHelpers[cal]
+	}
+	// local error variables whose value ends up in er.Err
+	flows := map[types.Object]bool{}
+	ast.Inspect(f.fd.Body, func(n ast.Node) bool {
+		if call, ok := isLatchCall(n); ok {
+			storesErr = true
+			for _, a := range call.Args {
+				if id, ok := ast.Unparen(a).(*ast.Ident); ok {
+					flows[f.info.ObjectOf(id)] = true
+				}
+			}
+		}
+		if as, ok := n.(*ast.AssignStmt); ok && len(as.Lhs) == 1 && len(as.Rhs) == 1 && f.canon(as.Lhs[0]) == "er.Err" {
+			if id, ok := ast.Unparen(as.Rhs[0]).(*ast.Ident); ok {
+				flows[f.info.ObjectOf(id)] = true
+			}
+		}
+		return true
+	})
+	// a statement that puts something into er.Err, at once or through a local
+	// that is latched later
+	storesInto := func(st ast.Stmt) bool {
+		switch x := st.(type) {
+		case *ast.AssignStmt:
+			for _, l := range x.Lhs {
+				if f.canon(l) == "er.Err" {
+					return true
+				}
+				if id, ok := ast.Unparen(l).(*ast.Ident); ok && flows[f.info.ObjectOf(id)] && x.Tok == token.ASSIGN {
+					return true
+				}
+			}
+		case *ast.ExprStmt:
+			if _, ok := isLatchCall(x.X); ok {
+				return true
+			}
+		}
+		return false
+	}
 	ast.Inspect(f.fd.Body, func(n ast.Node) bool {
 		switch x := n.(type) {
 		case *ast.AssignStmt:
@@ -1844,6 +2018,19 @@ func iohelpDrain(c *core.Ctx, p *load.Prog, rule string, latch bool) {
 		}
 		return true
 	})
+	// the limiter's count saved before the copy (declared := lr.N) is the count
+	ast.Inspect(f.fd.Body, func(n ast.Node) bool {
+		if as, ok := n.(*ast.AssignStmt); ok && len(as.Lhs) == 1 && len(as.Rhs) == 1 {
+			if sel, ok := ast.Unparen(as.Rhs[0]).(*ast.SelectorExpr); ok && sel.Sel.Name == "N" {
+				if t := f.info.TypeOf(sel.X); t != nil && strings.Contains(t.String(), "io.LimitedReader") {
+					if id, ok := as.Lhs[0].(*ast.Ident); ok {
+						copied[f.info.ObjectOf(id)] = true
+					}
+				}
+			}
+		}
+		return true
+	})
 	guarded, filtersEOF := false, false
 	ast.Inspect(f.fd.Body, func(n ast.Node) bool {
 		// a guarded store: `if COND { er.Err = … }` or `case COND: er.Err = …`
@@ -1864,12 +2051,8 @@ func iohelpDrain(c *core.Ctx, p *load.Prog, rule string, latch bool) {
 		ifs := &ast.IfStmt{Cond: condExpr, Body: &ast.BlockStmt{List: bodyStmts}}
 		stores := false
 		for _, st := range ifs.Body.List {
-			if as, ok := st.(*ast.AssignStmt); ok {
-				for _, l := range as.Lhs {
-					if f.canon(l) == "er.Err" {
-						stores = true
-					}
-				}
+			if storesInto(st) {
+				stores = true
 			}
 		}
 		if !stores {
